@@ -483,7 +483,7 @@ class C15(Check):
     }
     required_probes = [
         "in_place_kernel_launch", "launch_on_strided_view", "call_with_overlapping_array_arguments", "more_threads_than_outer_iterations", "policy_permuted", "policy_static", "policy_dynamic",
-        "executor_fidelity_checked_against_compiled_kernel", "target_gen", "target_ns2d", "target_ns3d", "target_passive", "target_solver", "target_interaction", "spreading_permuted_prange",
+        "executor_fidelity_checked_against_compiled_kernel", "thread_differential_ir", "thread_differential_compiled", "repeated_identical_requests", "target_gen", "target_ns2d", "target_ns3d", "target_passive", "target_solver", "target_interaction", "spreading_permuted_prange",
     ]
     tiers = {
         "quick": {"runs": 800, "batch": 6, "timeout": 900},
@@ -536,7 +536,16 @@ class C15(Check):
             p.update({"dim": dim, "shape": list(rng.choice(SHAPES[dim])), "vector": dim == 3 and rng.random() < 0.5, "view": rng.choice(["plain", "component", "inplace"])})
         else:
             dim = rng.choice([2, 3])
-            p.update({"dim": dim, "shape": list(rng.choice(SIM_SHAPES[dim])), "reset": rng.random() < 0.5, "n_markers": rng.choice([3, 8, 8, 2500, 4100]), "evals": 2})
+            p.update({"dim": dim, "shape": list(rng.choice(SIM_SHAPES[dim])), "reset": rng.random() < 0.5, "n_markers": rng.choice([3, 8, 8, 2500, 4100]), "evals": 2, "repeat_identical": rng.choice([0, 30, 60])})
+            if p["n_markers"] > 100:
+                p["repeat_identical"] = min(p["repeat_identical"], 30)
+        if target != "gen":
+            p["thread_diff"] = {"engine": "compiled" if rng.random() < 0.3 else "ir", "threads": rng.choice([2, 3, 4, 4, 8])}
+            if target == "solver" and rng.random() < 0.5:
+                # mid-sized buffers: size/thread-count thresholds sit between tiny and large
+                p["shape"] = list(rng.choice([(40, 48), (24, 32)] if p["dim"] == 2 else [(10, 12, 14)]))
+            if target == "passive" and p["dim"] == 2:
+                p["shape"] = list(rng.choice([(18, 16), (10, 12), (13, 11)]))  # row counts not divisible by the thread count
         return p
 
     # ------------------------------------------------------------------ execute
@@ -555,6 +564,8 @@ class C15(Check):
         try:
             with np.errstate(all="ignore"):
                 getattr(self, "_t_" + program["target"])(program, res, rt)
+                if program["target"] != "gen" and program.get("thread_diff"):
+                    self._thread_differential(program, res)
         finally:
             irsim.SimKernel.runtime = None
             seams.kernel_factory = None
@@ -562,6 +573,51 @@ class C15(Check):
         res.add_sim("kernel_launches", rt.launches)
         res.add_sim("cell_updates", rt.cells)
         res.nontrivial = rt.launches > 0 and rt.cells >= 2
+
+    # ---- thread-count differential
+    def _thread_differential(self, program, res):
+        """The same program with SophT's num_threads = 1 and = T must give the same bits.
+
+        Engine 'ir': kernels executed sequentially from the IR (catches thread-count dependent
+        Python-level paths: chunked reductions, size/thread thresholds).  Engine 'compiled': the
+        genuinely compiled kernels with real OpenMP threads (FFTW pinned to one thread) - here the
+        scheduler is libgomp's, so a mismatch is reported only if it shows twice in a row.
+        """
+        from .. import seams
+
+        engine = program["thread_diff"]["engine"]
+        T = int(program["thread_diff"]["threads"])
+        saved_rt, saved_factory, saved_alias = irsim.SimKernel.runtime, seams.kernel_factory, _alias["enabled"]
+        _alias["enabled"] = False
+        quiet = type("Quiet", (), {"probe": lambda *a, **k: None, "violation": lambda *a, **k: None, "add_sim": lambda *a, **k: None, "log": res.log, "sim": {}})()
+
+        def run(nt):
+            q = dict(program, num_threads=nt, repeat_identical=0)
+            plain = Runtime(quiet, 0, explore=False)
+            plain.target = program["target"]
+            irsim.SimKernel.runtime = plain
+            return getattr(self, "_t_" + program["target"])(q, quiet, plain)
+
+        try:
+            seams.kernel_factory = (lambda k: irsim.SimKernel(k)) if engine == "ir" else None
+            attempts = 1 if engine == "ir" else 2
+            bad = None
+            for _ in range(attempts):
+                a, b = run(1), run(T)
+                bad = [k for k in sorted(a) if a[k].tobytes() != b[k].tobytes()]
+                if not bad:
+                    break
+            res.probe("thread_differential_" + engine)
+            if bad:
+                k0 = bad[0]
+                dev = float(np.nanmax(np.abs(a[k0].astype(np.float64) - b[k0].astype(np.float64))))
+                res.violation(
+                    "thread_count_dependence",
+                    {"target": program["target"], "engine": engine, "key": k0},
+                    f"{program['target']} with num_threads=1 and num_threads={T} ({engine} kernels) gives bitwise different '{k0}' (max dev {dev:.3e}; differing outputs: {bad})",
+                )
+        finally:
+            irsim.SimKernel.runtime, seams.kernel_factory, _alias["enabled"] = saved_rt, saved_factory, saved_alias
 
     # ---- target: generator inventory
     def _t_gen(self, p, res, rt):
@@ -683,17 +739,22 @@ class C15(Check):
                 body.time_step(1e-3)
             elif p["with_forcing"]:
                 flow.eul_grid_forcing_field[...] = prng.smooth_field(p["sub"], flow.eul_grid_forcing_field.shape, real_t, 1.0, "f")
+            dt = flow.compute_stable_timestep(dt_prefac=0.25) if p.get("queries") else 2e-3
             if p["free_stream"]:
-                flow.time_step(dt=2e-3, free_stream_velocity=fs)
+                flow.time_step(dt=dt, free_stream_velocity=fs)
             else:
-                flow.time_step(dt=2e-3)
+                flow.time_step(dt=dt)
         res.add_sim("flow_steps", p["steps"])
+        out = {"vorticity": flow.vorticity_field.copy(), "velocity": flow.velocity_field.copy(), "time": np.array([flow.time])}
+        if body is not None:
+            out["lag_force"] = body.lag_grid_forcing_field.copy()
+        return out
 
     def _t_ns2d(self, p, res, rt):
-        self._t_ns(p, res, rt, 2)
+        return self._t_ns(p, res, rt, 2)
 
     def _t_ns3d(self, p, res, rt):
-        self._t_ns(p, res, rt, 3)
+        return self._t_ns(p, res, rt, 3)
 
     def _t_passive(self, p, res, rt):
         import sopht.simulator as sps
@@ -703,9 +764,10 @@ class C15(Check):
         sim.primary_field[...] = prng.smooth_field(p["sub"], sim.primary_field.shape, real_t, 1.0, "p")
         sim.velocity_field[...] = prng.smooth_field(p["sub"], sim.velocity_field.shape, real_t, 1.0, "u")
         for _ in range(p["steps"]):
-            sim.compute_stable_timestep()
-            sim.time_step(dt=2e-3)
+            dt = sim.compute_stable_timestep(dt_prefac=0.25)
+            sim.time_step(dt=dt)
         res.add_sim("flow_steps", p["steps"])
+        return {"primary": sim.primary_field.copy(), "time": np.array([sim.time])}
 
     def _t_solver(self, p, res, rt):
         import sopht.numeric.eulerian_grid_ops as spne
@@ -716,11 +778,13 @@ class C15(Check):
             s = spne.UnboundedPoissonSolverPYFFTW2D(grid_size_y=shape[0], grid_size_x=shape[1], x_range=1.0, real_t=real_t, num_threads=p["num_threads"])
         else:
             s = spne.UnboundedPoissonSolverPYFFTW3D(grid_size_z=shape[0], grid_size_y=shape[1], grid_size_x=shape[2], x_range=1.0, real_t=real_t, num_threads=p["num_threads"])
+        outs = {}
         for rep in range(2):
             if p.get("vector"):
                 rhs = prng.smooth_field(p["sub"], (3, *shape), real_t, 1.0, "rhs", rep)
                 sol = rhs if p["view"] == "inplace" else np.zeros_like(rhs)
                 s.vector_field_solve(solution_vector_field=sol, rhs_vector_field=rhs)
+                outs[f"sol{rep}"] = sol.copy()
             else:
                 if p["view"] == "component":
                     carrier = prng.smooth_field(p["sub"], (3, *shape), real_t, 1.0, "rhs", rep)
@@ -729,6 +793,8 @@ class C15(Check):
                     rhs = prng.smooth_field(p["sub"], shape, real_t, 1.0, "rhs", rep)
                     sol = rhs if p["view"] == "inplace" else np.zeros_like(rhs)
                 s.solve(solution_field=sol, rhs_field=rhs)
+                outs[f"sol{rep}"] = np.array(sol)
+        return outs
 
     def _spread_both_orders(self, body, forcing, res):
         """Oracle 3: spreading under a permuted prange equals the in-order result bit for bit."""
@@ -766,13 +832,34 @@ class C15(Check):
             self._spread_both_orders(body, flow.eul_grid_forcing_field, res)
             body.time_step(1e-2)
             body.compute_flow_forces_and_torques()
+        # the same request repeated many times on one long-lived object must give the same bits every
+        # time: a spreading order that depends on the call history (cached / periodically refreshed
+        # orderings) is not a fixed serial marker order
+        first = None
+        n_rep = int(p.get("repeat_identical", 0))
+        for i in range(n_rep):
+            flow.eul_grid_forcing_field[...] = 0
+            body()
+            cur = flow.eul_grid_forcing_field.copy()
+            if first is None:
+                first = cur
+            elif cur.tobytes() != first.tobytes():
+                res.violation(
+                    "spreading_order",
+                    {"site": "repeated_identical_request", "dim": dim},
+                    f"identical interaction request number {i + 1} on the same object spread a bitwise different Eulerian field than request 1 (max dev {float(np.max(np.abs(cur.astype(np.float64) - first.astype(np.float64)))):.3e}): marker accumulation order depends on the call history",
+                )
+                break
+        if n_rep:
+            res.probe("repeated_identical_requests", n_rep)
+        return {"forcing": flow.eul_grid_forcing_field.copy(), "lag_force": body.lag_grid_forcing_field.copy(), "X": body.lag_grid_position_mismatch_field.copy()}
 
     # ------------------------------------------------------------------ shrinking
     def shrink_lists(self, program):
         return []
 
     def simplify(self, program):
-        for key, val in (("steps", 1), ("queries", False), ("body", False), ("filter", None), ("free_stream", False), ("zone", 0), ("poisson", "greens"), ("view", "contig"), ("repeats", 1), ("evals", 1)):
+        for key, val in (("thread_diff", None), ("repeat_identical", 0), ("steps", 1), ("queries", False), ("body", False), ("filter", None), ("free_stream", False), ("zone", 0), ("poisson", "greens"), ("view", "contig"), ("repeats", 1), ("evals", 1)):
             if key in program and program[key] != val and not (key == "view" and program["target"] == "solver"):
                 c = copy.deepcopy(program)
                 c[key] = val
